@@ -708,6 +708,8 @@ Section Exec.
         | _, _ => throw w PxBad
         end
     | PObserve p k label h act =>
+        (* the moved signal is private; observers of destroyed() that write or reset are not part of the model *)
+        if (match k, act with KMoved, _ => true | KDestroyed, Some _ => true | _, _ => false end) then throw w PxBad else
         match subscribe w p k (SObs label act) with
         | None => throw w PxBad
         | Some (w1, hd) => ok (set_obs w1 (bind_key (w_obs w1) h hd))
